@@ -23,7 +23,7 @@ for pid in ids:
 na = json.load(open(os.path.join(ROOT, "not_applicable.json"))) if os.path.exists(os.path.join(ROOT, "not_applicable.json")) else {}
 manifest = {
     "version": 1,
-    "setup_cmd": "cd harness && GOFLAGS=-mod=mod GOPROXY=off GOSUMDB=off GOTOOLCHAIN=local go test -c -vet=off -tags verif -o /dev/null ./props",
+    "setup_cmd": "cd harness && export GOFLAGS=-mod=mod GOPROXY=off GOSUMDB=off GOTOOLCHAIN=local && go test -c -vet=off -tags verif -o /dev/null ./props && go test -c -vet=off -race -tags verif -o /dev/null ./props && go build -tags verif -o /dev/null ./cmd/emuhost && go test -c -vet=off -tags verif -o /dev/null ./fuzz",
     "hooks": {
         "guard": "verif",
         "enable": "go build tag: the driver builds the harness (which imports /repo through a replace directive) with -tags verif",
